@@ -559,6 +559,35 @@ theorem reparse_printed_rule (cfg : Cfg) (r : Rule) (L : List Cond) (rules : Lis
       ∀ e g, sem e g r'.conditions = sem e g r.conditions :=
   reparse_rule cfg r L rules hc hne hn hs hr hd hname hcat hcats hpos hdesc hex hkc hkn
 
+/-- `reparse_printed_rule` without the whole-kilobase hypotheses (rules scaled by multipliers have odd
+    distances): `reconstruct_rule_text` prints `cutoff // 1000`, so for **any** distances the
+    regenerated text parses back to the same name, category and condition meaning, and to the
+    distances rounded down to the kilobase (in particular they differ from the original by less
+    than 1000, and are equal exactly for whole kilobases) -/
+theorem reparse_printed_rule_any_distance (cfg : Cfg) (r : Rule) (L : List Cond) (rules : List Rule)
+    (hc : r.conditions = .group false L) (hne : L ≠ []) (hn : NamesOkL L) (hs : shapeOks true L = true)
+    (hr : noRepeats L = true) (hd : hasDupStr (printConds L) = false)
+    (hname : classify r.name = .identifier) (hcat : classify r.category = .identifier)
+    (hcats : cfg.cats.contains r.category = true) (hpos : positive r.conditions = true)
+    (hdesc : r.description = []) (hex : r.examples = []) :
+    ∃ toks r', tokenise r.reconstruct = .ok toks ∧
+      parseRule cfg (ofStream toks [] rules) = .ok (r', ofStream [] toks.reverse rules) ∧
+      r'.name = r.name ∧ r'.category = r.category ∧
+      r'.cutoff = r.cutoff / 1000 * 1000 ∧ r'.neighbourhood = r.neighbourhood / 1000 * 1000 ∧
+      r'.cutoff ≤ r.cutoff ∧ r.cutoff < r'.cutoff + 1000 ∧
+      r'.neighbourhood ≤ r.neighbourhood ∧ r.neighbourhood < r'.neighbourhood + 1000 ∧
+      ∀ e g, sem e g r'.conditions = sem e g r.conditions := by
+  obtain ⟨toks, r', h1, h2, h3, h4, h5, h6, h7⟩ :=
+    reparse_rule_gen cfg r L rules hc hne hn hs hr hd hname hcat hcats hpos hdesc hex
+  exact ⟨toks, r', h1, h2, h3, h4, h5, h6, by omega, by omega, by omega, by omega, h7⟩
+
+/-- 22 500 (15 kb × 1.5) comes back as 22 000 -/
+example : (match parseText { sigs := ["a"], cats := ["cat"] } [] []
+      ({ name := "r", category := "cat", cutoff := 22500, neighbourhood := 999,
+         conditions := .group false [.single false "a"] } : Rule).reconstruct with
+    | .ok ([r'], _) => some (r'.cutoff, r'.neighbourhood)
+    | _ => none) = some (22000, 0) := by decide +kernel
+
 /-- D17 and D26 on the model: `not (not a)` and `cds((a))` print with their parentheses -/
 example : printCond (.group true [.group true [.single false "a"]]) = "not (not a)" := by decide +kernel
 example : printCond (.cds false [.group false [.single false "a"]]) = "cds((a))" := by decide +kernel
